@@ -58,6 +58,11 @@ TEMPLATES = [
     ('auth', [b'EXAMINE ', S(b'INBOX')]),
     ('auth', [b'CREATE ', S(b'New')]),
     ('auth', [b'CREATE ', S(b'a b')]),
+    # values that look like protocol syntax themselves
+    ('auth', [b'CREATE ', S(b'xx{3+}', False)]),
+    ('auth', [b'CREATE ', S(b'{3}', False)]),
+    ('nonauth', [b'LOGIN ', S(b'demouser'), b' ', S(b'abc{3+}', False)]),
+    ('auth', [b'RENAME ', S(b'Sent'), b' ', S(b'y {1+}', False)]),
     ('auth', [b'DELETE ', S(b'Sent')]),
     ('auth', [b'RENAME ', S(b'Sent'), b' ', S(b'Sent2')]),
     ('auth', [b'SUBSCRIBE ', S(b'Sent')]),
@@ -67,6 +72,9 @@ TEMPLATES = [
     ('auth', [b'LSUB ', S(b''), b' ', S(b'*')]),
     ('auth', [b'APPEND ', S(b'Sent'), b' (\\Seen) ',
               S(b'A: b\r\n\r\nbody\r\n')]),
+    # above the 4096-byte limit that applies to literals of other commands
+    ('auth', [b'APPEND ', S(b'Sent'), b' ',
+              S(b'A: b\r\n\r\n' + b'0123456789' * 500 + b'\r\n')]),
     ('selected', [b'COPY 1 ', S(b'Sent')]),
     ('selected', [b'MOVE 2 ', S(b'Trash2')]),
     ('selected', [b'SEARCH SUBJECT ', S(b'question')]),
